@@ -705,11 +705,13 @@ Proof.
     destruct AC as (-> & Wop & ->).
     destruct (N.eq_dec opc 22) as [->|N22].
     + (* Prepare Write: not supported without a write queue *)
-      destruct (att_input_cccd_same c st cid _ n st' rs 22 WQ A eq_refl (or_introl (conj ltac:(discriminate) ltac:(discriminate)))) as (SC & Cb).
+      assert (N1 : (22 : N) <> 18) by discriminate. assert (N2 : (22 : N) <> 82) by discriminate.
+      assert (R22 : rd (22 :: lo :: hi :: data) 0 = Some 22) by reflexivity.
+      destruct (att_input_cccd_same c st cid _ n st' rs 22 WQ A R22 (or_introl (conj N1 N2))) as (SC & Cb).
       rewrite Cb, N.add_0_r. pose proof (att_input_prepare_rs c st cid _ n st' rs WQ A) as P23.
       unfold adv_write. rewrite P23. cbn [N.eqb Pos.eqb].
-      destruct (by_cccd_handle _ _); [eapply sim09_keep; eauto; apply k9_refl|].
-      destruct (by_value_handle _ _); eapply sim09_keep; eauto; apply k9_refl.
+      destruct (by_cccd_handle _ _); [apply (sim09_keep c st n0 m st' _ SM SC LC); apply k9_refl|].
+      destruct (by_value_handle _ _); apply (sim09_keep c st n0 m st' _ SM SC LC); apply k9_refl.
     + assert (Ho : opc = 18 \/ opc = 82).
       { apply orb_true_iff in Wop. destruct Wop as [Wop|Wop]; [|apply N.eqb_eq in Wop; contradiction].
         apply orb_true_iff in Wop. destruct Wop as [Wop|Wop]; apply N.eqb_eq in Wop; auto. }
@@ -724,10 +726,10 @@ Proof.
         destruct (by_cccd_handle (char_table c) (lo + 256 * hi)) as [g|] eqn:B.
         { exfalso. destruct (resolve_obs c W NI _ _ B) as (s & ch & cci & H0 & HI & At).
           destruct Hx as [Hx|[Hx|(a & Aa & Na)]]; [contradiction|contradiction|]. rewrite At in Aa. apply f_some_inj in Aa. eapply Na. symmetry. exact Aa. }
-        destruct (by_value_handle _ _); [|eapply sim09_keep; eauto; apply k9_refl].
-        destruct (opc =? 22); eapply sim09_keep; eauto; [apply k9_refl|apply k9_forget_value].
+        destruct (by_value_handle _ _); [|apply (sim09_keep c st n0 m st' _ SM SC LC); apply k9_refl].
+        destruct (opc =? 22); apply (sim09_keep c st n0 m st' _ SM SC LC); [apply k9_refl|apply k9_forget_value].
       * (* the CCCD attribute *)
-        destruct (resolve_model c W NI _ s ch cci H0 HI At) as (g & B).
+        destruct (resolve_model c _ s ch cci H0 HI At) as (g & B).
         rewrite (env_attr c _ _ _ _ EV At) in Out. cbn [security_check negb] in Out.
         destruct (by_cccd_handle_attr c _ _ B) as (_ & _ & _ & _ & _ & _ & _ & _ & Ig).
         assert (Bd : bytes_ok_l data) by (apply Forall_inv_tail in BO; apply Forall_inv_tail in BO; apply Forall_inv_tail in BO; exact BO).
@@ -739,7 +741,7 @@ Proof.
            assert (K : keeps9 m (if opc =? 18 then match rs with [19] => apply_cccd_write m cid g None | _ => m end else if opc =? 82 then m else m)).
            { destruct Ho as [-> | ->]; cbn [N.eqb Pos.eqb]; [|apply k9_refl].
              rewrite match19. cbn [N.eqb Pos.eqb] in Er. rewrite S5, T5 in Er. rewrite Er. cbn [bytes_eqb app le16]. apply k9_refl. }
-           destruct Ho as [-> | ->]; cbn [N.eqb Pos.eqb andb] in *; eapply sim09_keep; eauto using sc_refl.
+           destruct Ho as [-> | ->]; cbn [N.eqb Pos.eqb andb] in K |- *; exact (sim09_keep c st n0 m st _ SM (sc_refl st) eq_refl K).
         -- destruct Out as (-> & S1 & T1 & Cb0). rewrite Cb0.
            assert (L2' : (length data <= 2)%nat) by (apply N.ltb_ge in L2; unfold len in L2; lia).
            replace (len data <=? 2) with true by (symmetry; apply N.leb_le; unfold len; lia).
@@ -748,18 +750,82 @@ Proof.
                        = apply_cccd_write m cid g (cccd_new (nth g (o_cccd (oc_at m cid)) None) data)).
            { destruct Ho as [-> | ->]; cbn [N.eqb Pos.eqb]; [|reflexivity].
              cbn [N.eqb Pos.eqb] in Er. rewrite S1, T1 in Er. rewrite Er. reflexivity. }
-           destruct Ho as [-> | ->]; cbn [N.eqb Pos.eqb andb] in *; rewrite X; eapply sim09_cccd_write; eauto.
+           destruct Ho as [-> | ->]; cbn [N.eqb Pos.eqb andb] in X |- *; try rewrite X; exact (sim09_cccd_write c st n0 m cid k s ch cci _ g data W NI SM G H0 HI At B Bd L2').
   - (* Execute Write: not supported without a write queue *)
     destruct AC as ((t & ->) & ->).
-    destruct (att_input_cccd_same c st cid _ n st' rs 24 WQ A eq_refl (or_introl (conj ltac:(discriminate) ltac:(discriminate)))) as (SC & Cb).
+    assert (N1 : (24 : N) <> 18) by discriminate. assert (N2 : (24 : N) <> 82) by discriminate.
+    assert (R24 : rd (24 :: t) 0 = Some 24) by reflexivity.
+    destruct (att_input_cccd_same c st cid _ n st' rs 24 WQ A R24 (or_introl (conj N1 N2))) as (SC & Cb).
     rewrite Cb, N.add_0_r. destruct (exec9_eff m cid) as (E1 & E2 & E3 & [K|(E4 & E5)]).
-    + eapply sim09_keep; eauto.
-    + eapply sim09_weaken; eauto.
+    + exact (sim09_keep c st n0 m st' _ SM SC LC K).
+    + apply (sim09_weaken c st n0 m st' _ SM SC LC E1 E2); [|exact E3|].
       * intros e He. rewrite E4 in He. discriminate.
       * intros i g v Hv. destruct (E5 i) as [Eq|Nn]; [rewrite Eq in Hv; exact Hv|rewrite Nn in Hv; discriminate].
   - destruct AC as (K & Cond).
     assert (Cond' : (op <> 18 /\ op <> 82) \/ (len pdu <? 3) = true).
     { destruct Cond as [Cd|(op' & Hop' & N18 & N82 & _)]; [right; exact Cd|left]. rewrite Hop in Hop'. apply f_some_inj in Hop'. subst op'. auto. }
     destruct (att_input_cccd_same c st cid pdu n st' rs op WQ A Hop Cond') as (SC & Cb).
-    rewrite Cb, N.add_0_r. eapply sim09_keep; eauto.
+    rewrite Cb, N.add_0_r. exact (sim09_keep c st n0 m st' _ SM SC LC K).
 Qed.
+
+(* ------------------------------------------------------------------ the trace level theorem *)
+(* histories of requests (l2cap_input on any connection, any PDU of bytes) and callback queries *)
+Definition op09_ok (o : op9) : bool :=
+  match o with
+  | Cbs => true
+  | Op9 (OpIn _ pdu _) => forallb (fun b => b <? 256) pdu
+  | Op9 _ => false
+  end.
+Definition no_fault9 (tr : list (op9 * out9)) : Prop := Forall (fun x => snd x <> Out9 OFault) tr.
+
+Lemma sim09_init c : sim09 c (srv9_init c) (obs_init c).
+Proof.
+  unfold srv9_init, obs_init. split; [reflexivity|]. cbn [fst snd ob_conns ob_cb].
+  split; [unfold srv_init; cbn [conns]; rewrite !repeat_length; reflexivity|].
+  split; [intros e He; inversion He; reflexivity|].
+  intros cid k G. split; [exact (store_ok_reachable c [] cid k G)|].
+  assert (Hc : (cid < n_conns)%nat).
+  { apply nth_error_lt in G. unfold srv_init in G. cbn [conns] in G. rewrite repeat_length in G. exact G. }
+  assert (Ek : k = init_conn c).
+  { unfold get_conn, srv_init in G. cbn [conns] in G. apply nth_error_In in G. apply repeat_spec in G. exact G. }
+  subst k. unfold oc_at. cbn [ob_conns]. rewrite repeat_nth by exact Hc. cbn [oc_init o_enc o_cccd init_conn encrypted cccd].
+  split; [reflexivity|]. unfold tracked. intros g v h s ch cci Hv _ _. unfold oc_at in Hv. cbn [ob_conns] in Hv.
+  rewrite repeat_nth in Hv by exact Hc. cbn [oc_init o_cccd] in Hv.
+  assert (v = 0).
+  { destruct (Nat.lt_ge_cases g (length (char_table c))) as [Lg|Lg].
+    - rewrite repeat_nth in Hv by exact Lg. inversion Hv. reflexivity.
+    - rewrite nth_overflow in Hv by (rewrite repeat_length; exact Lg). discriminate. }
+  subst v. rewrite cccd_get_get2. apply get2_repeat0.
+Qed.
+
+Theorem monitor09_from_accepts c : wf c -> no_includes c -> env09 c = true -> forall ops s m pos,
+  sim09 c s m -> forallb op09_ok ops = true -> no_fault9 (srv9_run c s ops) ->
+  monitor09_from c m pos (srv9_run c s ops) = None.
+Proof.
+  intros W NI EV. induction ops as [|o t IH]; intros s m pos SM OK NF; cbn [srv9_run monitor09_from]; [reflexivity|].
+  cbn [forallb] in OK. apply andb_true_iff in OK. destruct OK as [Ok1 Ok2]. destruct s as [st n0].
+  destruct o as [op|].
+  - destruct op as [cid pdu n|cid n|cid e p|cid|bu kd g|g|g data]; try discriminate Ok1.
+    assert (BO : bytes_ok_l pdu).
+    { cbn [op09_ok] in Ok1. rewrite forallb_forall in Ok1. apply Forall_forall. intros b Hb. apply N.ltb_lt. apply Ok1. exact Hb. }
+    cbn [srv9_run srv9_step fst snd srv_step] in NF |- *.
+    destruct (att_input c st cid pdu n) as [[st' rs]|] eqn:A; cbn [fst snd] in NF |- *.
+    + cbn [monitor09_from mstep09]. unfold mstep_of.
+      rewrite (check09_in_ok c st n0 m cid pdu n st' rs W NI EV BO SM A).
+      inversion NF as [|? ? NF1 NF2]. apply IH; [|exact Ok2|exact NF2].
+      exact (sim09_in c st n0 m cid pdu n st' rs W NI EV BO SM A).
+    + exfalso. inversion NF as [|? ? NF1 NF2]. apply NF1. reflexivity.
+  - cbn [srv9_run srv9_step fst snd] in NF |- *. cbn [monitor09_from mstep09].
+    inversion NF as [|? ? NF1 NF2].
+    destruct SM as (T & L & CB & S). cbn [fst snd] in *.
+    assert (SM' : sim09 c (st, 0) (set_cb m (Some 0))).
+    { split; [exact T|]. split; [exact L|]. split; [intros e He; cbn [set_cb ob_cb] in He; inversion He; reflexivity|]. exact S. }
+    destruct (ob_cb m) as [e|] eqn:Cb.
+    + rewrite (CB e eq_refl), N.eqb_refl. apply IH; [exact SM'|exact Ok2|exact NF2].
+    + apply IH; [exact SM'|exact Ok2|exact NF2].
+Qed.
+
+Theorem monitor09_accepts_model_partial c ops :
+  wf c -> no_includes c -> env09 c = true -> forallb op09_ok ops = true ->
+  no_fault9 (srv9_run c (srv9_init c) ops) -> monitor09 c (srv9_run c (srv9_init c) ops) = None.
+Proof. intros W NI EV OK NF. apply monitor09_from_accepts; auto. apply sim09_init. Qed.
